@@ -206,12 +206,20 @@ func (pool *BlockPool) RedoRequest(height int64) {
 	request := pool.requesters[height]
 	pool.mtx.Unlock()
 
-	if request.block == nil {
-		gcmn.PanicSanity("Expected block to be non-nil")
+	if request == nil {
+		return
+	}
+	// The block can disappear at any time (its peer was removed between
+	// PeekTwoBlocks and this call): then the requester is already redoing.
+	request.mtx.Lock()
+	peerID, gone := request.peerID, request.block == nil
+	request.mtx.Unlock()
+	if gone {
+		return
 	}
 	// RemovePeer will redo all requesters associated with this peer.
 	// TODO: record this malfeasance
-	pool.RemovePeer(request.peerID)
+	pool.RemovePeer(peerID)
 }
 
 // TODO: ensure that blocks come in order for each peer.
